@@ -58,9 +58,17 @@ def template_of(name):
         for p_ in name[1]:
             if is_const(p_) and isinstance(p_[1], str):
                 out.append(("lit", p_[1]))
+            elif isinstance(p_, tuple) and p_ and p_[0] == "fstr":
+                out.extend(template_of(p_))          # a prefix built in a local variable
             else:
                 out.append(("hole", p_))
-        return out
+        merged = []
+        for seg in out:
+            if merged and seg[0] == "lit" and merged[-1][0] == "lit":
+                merged[-1] = ("lit", merged[-1][1] + seg[1])
+            else:
+                merged.append(seg)
+        return merged
     return [("hole", name)]
 
 
@@ -123,6 +131,17 @@ def r_name_injective(ctx):
                     else:
                         missing.append(f"index `{want}`")
                 break
+        # two free-form names must be separated by a distinctive literal: `{a}_{b}` reads the same for ('x_y', 'z') and ('x', 'y_z')
+        name_hole = lambda h: show(h).endswith(".name")
+        for i_, seg in enumerate(tpl):
+            if seg[0] == "hole" and name_hole(seg[1]):
+                j_ = i_ + 1
+                sep = ""
+                while j_ < len(tpl) and tpl[j_][0] == "lit":
+                    sep += tpl[j_][1]
+                    j_ += 1
+                if j_ < len(tpl) and tpl[j_][0] == "hole" and name_hole(tpl[j_][1]) and not any(ch.isalpha() for ch in sep):
+                    missing.append(f"a distinctive separator between {show(seg[1])} and {show(tpl[j_][1])} (only {sep!r})")
         if missing or not owner_ok:
             ctx.violation("R-NAME-INJECTIVE", where, f"name template {text[:80]} loses an index",
                           f"the constant named {text[:120]} is created once per {sorted(set(missing)) or 'element'} but its name does not "
